@@ -1,0 +1,116 @@
+//go:build verif
+
+package geom
+
+// Contracts for the Geometry dispatch layer (C20, C16): the tagged unsafe
+// pointer is modelled as a typed reference with a dynamic-type ghost tag
+// dyn(region); the zero value (nil pointer, type 0) is a valid Geometry.
+
+//@ prop C20
+
+// ---- type invariants (C16: one coordinate type, carried by every member) ----
+//@ pred PtInv(p) = p.coords.Type < 4
+//@ pred LSInv(l) = SeqInv(l.seq) && allocated(l.seq.floats)
+//@ pred PolyInv(p) = p.ctype < 4 && allocated(p.rings) && (forall k :: 0 <= k && k < len(p.rings) ==> SeqInv(p.rings[k].seq) && allocated(p.rings[k].seq.floats) && p.rings[k].seq.ctype == p.ctype)
+//@ pred MPInv(m) = m.ctype < 4 && allocated(m.points) && (forall k :: 0 <= k && k < len(m.points) ==> m.points[k].coords.Type == m.ctype)
+//@ pred MLSInv(m) = m.ctype < 4 && allocated(m.lines) && (forall k :: 0 <= k && k < len(m.lines) ==> SeqInv(m.lines[k].seq) && allocated(m.lines[k].seq.floats) && m.lines[k].seq.ctype == m.ctype)
+//@ pred MPolyInv(m) = m.ctype < 4 && allocated(m.polys) && (forall k :: 0 <= k && k < len(m.polys) ==> PolyInv(m.polys[k]) && m.polys[k].ctype == m.ctype)
+//@ pred GShape(g) = (g.ptr == nil && g.gtype == 0) || (g.ptr != nil && offset(g.ptr) == 0 && allocated(g.ptr) && ((g.gtype == 0 && dyn(g.ptr) == typeid(GeometryCollection)) || (g.gtype == 1 && dyn(g.ptr) == typeid(Point)) || (g.gtype == 2 && dyn(g.ptr) == typeid(LineString)) || (g.gtype == 3 && dyn(g.ptr) == typeid(Polygon)) || (g.gtype == 4 && dyn(g.ptr) == typeid(MultiPoint)) || (g.gtype == 5 && dyn(g.ptr) == typeid(MultiLineString)) || (g.gtype == 6 && dyn(g.ptr) == typeid(MultiPolygon))))
+//@ pred CTypeOf(g) = ite(g.ptr == nil, 0, ite(g.gtype == 0, deref(g.ptr, GeometryCollection).ctype, ite(g.gtype == 1, deref(g.ptr, Point).coords.Type, ite(g.gtype == 2, deref(g.ptr, LineString).seq.ctype, ite(g.gtype == 3, deref(g.ptr, Polygon).ctype, ite(g.gtype == 4, deref(g.ptr, MultiPoint).ctype, ite(g.gtype == 5, deref(g.ptr, MultiLineString).ctype, deref(g.ptr, MultiPolygon).ctype)))))))
+//@ pred GCInv(c) = c.ctype < 4 && allocated(c.geoms) && (forall k :: 0 <= k && k < len(c.geoms) ==> GInv(c.geoms[k]) && CTypeOf(c.geoms[k]) == c.ctype)
+//@ recpred GInv(g) = GShape(g) && (g.ptr != nil ==> (g.gtype == 0 ==> GCInv(deref(g.ptr, GeometryCollection))) && (g.gtype == 1 ==> PtInv(deref(g.ptr, Point))) && (g.gtype == 2 ==> LSInv(deref(g.ptr, LineString))) && (g.gtype == 3 ==> PolyInv(deref(g.ptr, Polygon))) && (g.gtype == 4 ==> MPInv(deref(g.ptr, MultiPoint))) && (g.gtype == 5 ==> MLSInv(deref(g.ptr, MultiLineString))) && (g.gtype == 6 ==> MPolyInv(deref(g.ptr, MultiPolygon))))
+//@ typeinv Geometry GInv
+//@ typeinv Point PtInv
+//@ typeinv LineString LSInv
+//@ typeinv Polygon PolyInv
+//@ typeinv MultiPoint MPInv
+//@ typeinv MultiLineString MLSInv
+//@ typeinv MultiPolygon MPolyInv
+//@ typeinv GeometryCollection GCInv
+//@ typeinv Sequence SeqInv
+//@ pred CTInv(t) = t < 4
+//@ pred CoordInv(c) = c.Type < 4
+//@ typeinv CoordinatesType CTInv
+//@ typeinv Coordinates CoordInv
+
+//@ func Geometry.Type
+//@   ensures result == g.gtype && 0 <= result && result <= 6
+//@ func Geometry.IsGeometryCollection
+//@   ensures result <==> g.gtype == 0
+//@ func Geometry.IsPoint
+//@   ensures result <==> g.gtype == 1
+//@ func Geometry.IsLineString
+//@   ensures result <==> g.gtype == 2
+//@ func Geometry.IsPolygon
+//@   ensures result <==> g.gtype == 3
+//@ func Geometry.IsMultiPoint
+//@   ensures result <==> g.gtype == 4
+//@ func Geometry.IsMultiLineString
+//@   ensures result <==> g.gtype == 5
+//@ func Geometry.IsMultiPolygon
+//@   ensures result <==> g.gtype == 6
+
+//@ func Geometry.check
+//@   requires g.gtype == gtype
+
+//@ func Geometry.MustAsGeometryCollection
+//@   requires g.gtype == 0
+//@   ensures g.ptr == nil ==> len(result.geoms) == 0 && result.ctype == 0
+//@   ensures g.ptr != nil ==> same(result, deref(g.ptr, GeometryCollection))
+//@ func Geometry.MustAsPoint
+//@   requires g.gtype == 1
+//@   ensures same(result, deref(g.ptr, Point))
+//@ func Geometry.MustAsLineString
+//@   requires g.gtype == 2
+//@   ensures same(result, deref(g.ptr, LineString))
+//@ func Geometry.MustAsPolygon
+//@   requires g.gtype == 3
+//@   ensures same(result, deref(g.ptr, Polygon))
+//@ func Geometry.MustAsMultiPoint
+//@   requires g.gtype == 4
+//@   ensures same(result, deref(g.ptr, MultiPoint))
+//@ func Geometry.MustAsMultiLineString
+//@   requires g.gtype == 5
+//@   ensures same(result, deref(g.ptr, MultiLineString))
+//@ func Geometry.MustAsMultiPolygon
+//@   requires g.gtype == 6
+//@   ensures same(result, deref(g.ptr, MultiPolygon))
+
+//@ func Point.AsGeometry
+//@   ensures result.gtype == 1 && result.ptr != nil && fresh(result.ptr) && same(deref(result.ptr, Point), p)
+//@ func LineString.AsGeometry
+//@   ensures result.gtype == 2 && result.ptr != nil && fresh(result.ptr) && same(deref(result.ptr, LineString), s)
+//@ func Polygon.AsGeometry
+//@   ensures result.gtype == 3 && result.ptr != nil && fresh(result.ptr) && same(deref(result.ptr, Polygon), p)
+//@ func MultiPoint.AsGeometry
+//@   ensures result.gtype == 4 && result.ptr != nil && fresh(result.ptr) && same(deref(result.ptr, MultiPoint), m)
+//@ func MultiLineString.AsGeometry
+//@   ensures result.gtype == 5 && result.ptr != nil && fresh(result.ptr) && same(deref(result.ptr, MultiLineString), m)
+//@ func MultiPolygon.AsGeometry
+//@   ensures result.gtype == 6 && result.ptr != nil && fresh(result.ptr) && same(deref(result.ptr, MultiPolygon), m)
+
+// every other function of the dispatch layer: panic-freedom for every Geometry
+// satisfying GInv (the zero value included), callee methods of the concrete
+// types opaque
+//@ func convexHull
+//@   trusted
+//@ func Geometry.Densify
+//@   requires maxDistance > 0
+//@ func Geometry.AppendWKT
+//@   modifies dst
+
+//@ sweep /type_geometry.go -String -Scan -scanAsType -assignToConcrete -unmarshalGeoJSONAsType -UnmarshalJSON -Summary
+
+// every function of the seven concrete types, the sequence layer and the
+// constructors: safety sweep + type invariants on every result
+//@ prop C16,C20
+//@ sweep /type_point.go -String -Scan -Summary -Value
+//@ sweep /type_line_string.go -String -Scan -Summary -Value
+//@ sweep /type_polygon.go -String -Scan -Summary -Value
+//@ sweep /type_multi_point.go -String -Scan -Summary -Value
+//@ sweep /type_multi_line_string.go -String -Scan -Summary -Value
+//@ sweep /type_multi_polygon.go -String -Scan -Summary -Value
+//@ sweep /type_geometry_collection.go -String -Scan -Summary -Value
+//@ sweep /type_sequence.go
+//@ sweep /ctor_from_coords.go
+//@ sweep /type_coordinates.go -String
